@@ -897,6 +897,15 @@ def run_conc(ctx, case, yields=None):
     base_flags = fcntl.fcntl(R.pty.slave, fcntl.F_GETFL)
     main_pid = os.getpid()
     ts_times = []
+    delivered = [0]
+    library_handler = inp.sigint_handler
+
+    def counted_handler(signum, frame):
+        # a SIGINT as Input receives it (run by the interpreter in the requesting thread)
+        delivered[0] += 1
+        hist.append({"k": "sigint", "t": time.monotonic()})
+        return library_handler(signum, frame)
+    inp.sigint_handler = counted_handler
 
     def helper():
         for delay, act in case["script"]:
@@ -926,15 +935,23 @@ def run_conc(ctx, case, yields=None):
                 os.set_blocking(R.pty.master, True)
                 os.write(R.pty.master, act[1])
             elif k == "sigint":
-                with lock:
-                    hist.append({"k": "sigint", "t": time.monotonic()})
+                # standard signals coalesce: two SIGINTs that reach the process before the
+                # interpreter has run the handler once are ONE delivery. What has to come back
+                # exactly once is every delivery, so deliveries are what the history records
+                # (the handler is counted where Input receives it), and the next signal is only
+                # sent once this one has been delivered
+                before = delivered[0]
                 os.kill(main_pid, signal.SIGINT)
-                time.sleep(0.03)       # one outstanding at a time
+                t_end = time.monotonic() + 1.0
+                while delivered[0] == before and time.monotonic() < t_end:
+                    time.sleep(0.001)
+                time.sleep(0.002)
 
     problems = []
     th = threading.Thread(target=helper, name="helper")
     trace = ()
     late = []
+    body_end = [None]
     Ev.slow = case.get("slow_ctor", 0.0)
     old_handler = signal.signal(signal.SIGINT, lambda s, f: late.append(time.monotonic()))
     try:
@@ -978,6 +995,7 @@ def run_conc(ctx, case, yields=None):
                     break
             if yields:
                 trace = yields.stop()
+            body_end[0] = time.monotonic()
     except Exception as ex:  # noqa
         problems.append(("raise", {"outside request": repr(ex)}))
     finally:
@@ -988,6 +1006,10 @@ def run_conc(ctx, case, yields=None):
         signal.signal(signal.SIGINT, old_handler)
     if late:
         ctx.count("sigints_after_context_left", len(late))
+        if body_end[0] is not None and any(t < body_end[0] for t in late):
+            # with sigint_event=True every SIGINT that arrives inside the context is Input's to take
+            problems.append(("sigints", {"what": "a SIGINT inside the context reached the application's handler, not Input",
+                                         "count": sum(1 for t in late if t < body_end[0])}))
     release_trigger_fds(inp, ts)
     problems += inputq.check(hist, drained=True, concurrent=True)
     if yields is not None:
